@@ -135,7 +135,7 @@ def generate(gen_dir, repo):
 
 
 def generate_to(gen_dir, repo="/repo"):
-    text, errors = generate(gen_dir, repo)
+    text, errors = eigensym.cached_generate("C12", repo, gen_dir, {"src": ["src/transform/SmartRotation3D.cpp", "src/geometry/Pose3D.cpp"], "gen": ["SrcFunsC10.v"]}, lambda: generate(gen_dir, repo))
     eigensym.write_if_changed(os.path.join(gen_dir, "SrcEigenC12.v"), text)
     return errors
 
